@@ -14,7 +14,7 @@ import itertools
 import numpy as np
 
 META = dict(
-    engines=["product"],
+    engines=["product", "bfs"],
     technique="exhaustive enumeration of grids x ensembles x all limit pairs x step sizes x segmentations; differential oracle between four detector paths and a per-pixel reference",
     text="On 3 grids, 1-2 energies and 3 ensemble shapes, every ordered pair of limits from a 7-value alphabet (integer, fractional, maximal), 3 step "
          "sizes and 3 segmentations are measured with AnnularDetector, DiffractionPatterns.integrate_radial, FlexibleAnnularDetector + "
@@ -45,7 +45,12 @@ def check(ctx):
         for nr, na in ((1, 1), (2, 4), (3, 1)):
             for io in ((0.0, 40.0), (7.5, 21.3), (3.0, 10.0)):
                 cases.append({"kind": "seg", "g": g, "e": e, "ens": ens, "nr": nr, "na": na, "inner": io[0], "outer": io[1]})
-    ctx.run(cases, "run_case", rule="annular: all limit pairs inside; flex: all bins and all edge-aligned pairs inside; seg: per segmentation; "
+    # histories: ONE detector object is used on a sequence of waves with different angular ranges (3 grids, 2 energies); what it measures on
+    # the last waves must be what a fresh detector measures there, hence still consistent with the AnnularDetector of the same limits
+    for det in range(len(REUSE_DETECTORS)):
+        for first in range(len(REUSE_WAVES)):
+            cases.append({"kind": "reuse", "det": det, "first": first, "depth": 2 if q else 3})
+    ctx.run(cases, "run_case", rule="reuse: BFS over all sequences of 5 wave variants on one detector object, depth 2 / 3, per detector kind | annular: all limit pairs inside; flex: all bins and all edge-aligned pairs inside; seg: per segmentation; "
             "non-trivial = all")
 
 
@@ -81,7 +86,92 @@ def arr_of(x):
     return np.asarray(x.array if hasattr(x, "array") else x, dtype=np.float64)
 
 
+REUSE_WAVES = [(0, 100e3), (1, 100e3), (2, 100e3), (0, 300e3), ("wide", 100e3)]  # (grid index or 'wide' = 32x32 on 3.1 A: twice the angular range, energy)
+REUSE_DETECTORS = [("flex", dict(step_size=2.5)), ("flex", dict(step_size=1.0, inner=3.0)), ("flex", dict(step_size=2.0, outer=30.0)), ("annular", dict(inner=5.0)),
+                   ("annular", dict(inner=5.0, outer=30.0)), ("seg", dict(nbins_radial=2, nbins_azimuthal=4, inner=5.0, outer=25.0)), ("pix", dict(max_angle="valid")),
+                   ("pix", dict(max_angle="cutoff")), ("pix", dict(max_angle=None))]
+
+
+def _reuse_waves(i):
+    g, e = REUSE_WAVES[i]
+    if g == "wide":
+        import abtem
+        from mc.compare import rng
+
+        r = rng("c12wide")
+        arr = (r.normal(size=(32, 32)) + 1j * r.normal(size=(32, 32))).astype(np.complex64)
+        return abtem.Waves(arr, energy=e, extent=(3.1, 3.1))
+    return make_waves({"g": g, "e": e, "ens": "single"})
+
+
+def _reuse_detector(i):
+    import abtem
+
+    kind, kw = REUSE_DETECTORS[i]
+    return {"flex": abtem.FlexibleAnnularDetector, "annular": abtem.AnnularDetector, "seg": abtem.SegmentedDetector, "pix": abtem.PixelatedDetector}[kind](**kw)
+
+
+def run_reuse(c):
+    from mc.bfs import bfs
+
+    fresh_cache = {}
+
+    def observe(det, i):
+        try:
+            m = det.detect(_reuse_waves(i))
+            return (np.asarray(m.array), tuple(repr(a.__dict__) for a in m.axes_metadata))
+        except Exception as e:  # noqa: BLE001
+            return "raises:" + type(e).__name__
+
+    def fresh_result(i):
+        if i not in fresh_cache:
+            fresh_cache[i] = observe(_reuse_detector(c["det"]), i)
+        return fresh_cache[i]
+
+    def fresh():
+        return {"d": _reuse_detector(c["det"]), "hist": []}
+
+    def apply(s, ev):
+        s["last"] = observe(s["d"], ev)
+        s["hist"].append(ev)
+        return "ok" if not isinstance(s["last"], str) else s["last"]
+
+    def enabled(s):
+        return list(range(len(REUSE_WAVES))) if s["hist"] else [c["first"]]
+
+    def canon(s):  # what a detector remembers from earlier waves is hidden state: histories are never merged
+        return tuple(s["hist"])
+
+    def check(s, hist, ev, info, pre):
+        want, got = fresh_result(ev), s["last"]
+        if isinstance(want, str) or isinstance(got, str):
+            if want != got if isinstance(want, str) and isinstance(got, str) else True:
+                return [("reuse/outcome", "detector %r after waves %r: %s on waves %r, a fresh detector: %s" % (REUSE_DETECTORS[c["det"]], list(hist), got if isinstance(got, str) else "ok", REUSE_WAVES[ev], want if isinstance(want, str) else "ok"))]
+            return []
+        if got[0].shape != want[0].shape:
+            return [("reuse/shape", "detector %r used on waves %r before: measurement of waves %r has shape %r, a fresh detector gives %r" % (
+                REUSE_DETECTORS[c["det"]], [REUSE_WAVES[h] for h in hist], REUSE_WAVES[ev], got[0].shape, want[0].shape))]
+        out = []
+        if not np.allclose(got[0], want[0], rtol=1e-6, atol=1e-6 * float(np.abs(want[0]).max())):
+            out.append(("reuse/values", "detector %r used on waves %r before: measurement of waves %r differs from a fresh detector's by %.3g" % (
+                REUSE_DETECTORS[c["det"]], [REUSE_WAVES[h] for h in hist], REUSE_WAVES[ev], float(np.abs(got[0] - want[0]).max()))))
+        if got[1] != want[1]:
+            out.append(("reuse/axes", "detector %r used on waves %r before: axes metadata of the measurement of waves %r differ from a fresh detector's" % (
+                REUSE_DETECTORS[c["det"]], [REUSE_WAVES[h] for h in hist], REUSE_WAVES[ev])))
+        return out
+
+    res = bfs(fresh, apply, enabled, canon, check, c["depth"])
+    viol, seen = [], set()
+    for key, msg, hist in res["violations"]:
+        if key not in seen:
+            seen.add(key)
+            viol.append({"key": key, "msg": "%s (%s)" % (msg, c)})
+    return {"viol": viol, "obs": "%d histories %s" % (len(res["states"]), sorted(res["infos"].items())), "st": len(res["states"]), "tr": res["transitions"], "ref": res["transitions"]}
+
+
 def run_case(c):
+    if c["kind"] == "reuse":
+        return run_reuse(c)
     import abtem
     from mc.compare import err
 
